@@ -252,7 +252,7 @@ Theorem C15_parse_equal_tree_refuted :
   exists c a d d', sr_init c a = Ok d /\ single_root (a_content a) = Some (d_content d) /\
                    srread d = Ok (c, d') /\ d_content d' <> d_content d.
 Proof.
-  exists Comprehensive, (Args [Evd 1 0 1 11] (CDataset ex_foreign_root) true true false false false None None None true).
+  exists Comprehensive, (Args [Evd 1 0 1 11] (CDataset ex_foreign_root) true true false false false None None None true no_extras).
   eexists. eexists. split; [vm_compute; reflexivity|]. split; [reflexivity|].
   split; [vm_compute; reflexivity|]. cbn. discriminate.
 Qed.
@@ -367,7 +367,8 @@ Definition ex_tree (deep : vt) : item :=
         Item IMAGE 2 4 (Some (1, 0)) [] [Item COMPOSITE 6 4 (Some (2, 2)) [] []]]].
 Definition ex_ev : list evd := [Evd 3 0 1 11; Evd 1 0 1 11; Evd 2 2 2 21; Evd 1 0 1 11].
 Definition ex_args (deep : vt) : sr_args :=
-  Args ex_ev (CDataset (ex_tree deep)) true true true false true (Some 7) (Some 8) None true.
+  Args ex_ev (CDataset (ex_tree deep)) true true true false true (Some 7) (Some 8) None true
+       (Extras (Some 3) None (Some [5]) (Some [])).
 
 Example C15_example :
   (exists d, sr_init Comprehensive (ex_args TEXT) = Ok d /\
@@ -501,7 +502,8 @@ Example C15_sr_document_example :
     is_report (d_content d) = true /\
     get_evidence d true = [(1, 11, 1, 0); (2, 21, 2, 2)] /\
     get_evidence d false = [(1, 11, 1, 0); (2, 21, 2, 2); (1, 11, 3, 0)] /\
-    d_pred d = Some [(1, [(5, [(20, 2); (20, 2)])])] /\ d_observer d = Some (7, 8).
+    d_pred d = Some [(1, [(5, [(20, 2); (20, 2)])])] /\ d_observer d = Some (7, 8) /\
+    d_extras d = Recorded (Some 3) (Some 4) (Some [5; 6]) None.
 Proof. exact e2e_example. Qed.
 Print Assumptions C15_sr_document_example.
 
@@ -561,7 +563,7 @@ Theorem C15_key_object_accepted_iff : forall ev ts root d,
   ko_init ev ts root = Ok d <->
   ev <> [] /\ ts = true /\
   exists st sers oth, collect_evidence true ev root = Ok ([(st, sers)], oth) /\
-    d = Doc ko_code root [(st, sers)] [] None false false false None.
+    d = Doc ko_code root [(st, sers)] [] None false false false None no_recorded.
 Proof. exact ko_init_iff. Qed.
 Print Assumptions C15_key_object_accepted_iff.
 
@@ -584,8 +586,65 @@ Print Assumptions C15_key_object_two_studies_refused.
 Theorem C15_parsed_keeps_evidence : forall c a d d', sr_init c a = Ok d -> srread d = Ok (c, d') ->
   d_cls d' = d_cls d /\ d_current d' = d_current d /\ d_other d' = d_other d /\ d_pred d' = d_pred d /\
   d_complete d' = d_complete d /\ d_verified d' = d_verified d /\ d_final d' = d_final d /\
-  d_observer d' = d_observer d /\
+  d_observer d' = d_observer d /\ d_extras d' = d_extras d /\
   (forall b, get_evidence d' b = get_evidence d b) /\
   (forall b, get_evidence_series d' b = get_evidence_series d b).
 Proof. exact parsed_keeps_evidence. Qed.
 Print Assumptions C15_parsed_keeps_evidence.
+
+(* ==== arguments that are only recorded (institution name, department name, performed procedure
+   codes, requested procedures) ======================================================================
+     set_extras a x     the arguments a with those four replaced by x
+     set_recorded d w   the document d with the four recorded attributes replaced by w
+     record_extras x    what a document carries of x (department only together with an institution;
+                        the code sequence always present)
+     map_ok f r         f applied to an accepted result, a refusal unchanged
+   FRAME: for every class and every argument list, replacing them changes NOTHING but the four
+   recorded attributes - not the verdict, not the error class, not the content, evidence, flags or
+   verifying observer.  (A subclass constructor that derives one guarded argument from an unguarded
+   one - e.g. the verifying organization from the institution name - falsifies this equation.) *)
+Theorem C15_unrelated_arguments_frame : forall c a x,
+  sr_init c (set_extras a x) = map_ok (fun d => set_recorded d (record_extras x)) (sr_init c a).
+Proof. exact extras_frame. Qed.
+Print Assumptions C15_unrelated_arguments_frame.
+
+Theorem C15_unrelated_arguments_verdict : forall c a x k,
+  sr_init c (set_extras a x) = Err k <-> sr_init c a = Err k.
+Proof. exact extras_verdict. Qed.
+Print Assumptions C15_unrelated_arguments_verdict.
+
+Theorem C15_unrelated_arguments_recorded : forall c a d, sr_init c a = Ok d ->
+  d_extras d = record_extras (a_extras a) /\
+  w_institution (d_extras d) = x_institution (a_extras a) /\
+  w_department (d_extras d) =
+    (match x_institution (a_extras a) with Some _ => x_department (a_extras a) | None => None end) /\
+  w_codes (d_extras d) = Some (match x_codes (a_extras a) with Some l => l | None => [] end) /\
+  w_requests (d_extras d) = x_requests (a_extras a).
+Proof. exact extras_recorded. Qed.
+Print Assumptions C15_unrelated_arguments_recorded.
+
+(* "verification details are demanded when a document is marked verified" - for every class and
+   WHATEVER the other optional arguments are: a missing observer name or organization is refused,
+   and an accepted verified document records exactly the two details given *)
+Theorem C15_verification_whatever_else : forall c a x,
+  (a_verified a = true -> (a_observer a = None \/ a_org a = None) ->
+     sr_init c (set_extras a x) = Err "ValueError") /\
+  (forall d, sr_init c (set_extras a x) = Ok d ->
+     d_verified d = a_verified a /\
+     (a_verified a = true ->
+        exists n o, a_observer a = Some n /\ a_org a = Some o /\ d_observer d = Some (n, o)) /\
+     (a_verified a = false -> d_observer d = None)).
+Proof. exact verification_whatever_else. Qed.
+Print Assumptions C15_verification_whatever_else.
+
+(* non-vacuity: verified, observer 7, NO organization, institution 3 (and department / requested
+   procedures): refused by all three classes; with organization 8: accepted, observer (7, 8),
+   institution recorded as institution *)
+Example C15_verification_example :
+  sr_init Comprehensive3D (ver_args None (Extras (Some 3) (Some 4) None None)) = Err "ValueError" /\
+  sr_init Comprehensive (ver_args None (Extras (Some 3) None None None)) = Err "ValueError" /\
+  sr_init Enhanced (ver_args None (Extras (Some 3) None None (Some [9]))) = Err "ValueError" /\
+  exists d, sr_init Comprehensive3D (ver_args (Some 8) (Extras (Some 3) (Some 4) None (Some [9]))) = Ok d /\
+    d_observer d = Some (7, 8) /\ d_extras d = Recorded (Some 3) (Some 4) (Some []) (Some [9]).
+Proof. exact verification_example. Qed.
+Print Assumptions C15_verification_example.
